@@ -60,9 +60,10 @@ Definition produces (t : tx A) : list (Z * A) :=
        | None => []
        end.
 
-(* slice.get(index) *)
-Definition get (l : list A) (i : Z) : option A :=
-  if i <? 0 then None else nth_error l (Z.to_nat i).
+(* slice.get(index); the index stays a binary number (probes go up to 2^64 - 1) *)
+Fixpoint zget (l : list A) (i : Z) : option A :=
+  match l with [] => None | x :: r => if i =? 0 then Some x else zget r (i - 1) end.
+Definition get (l : list A) (i : Z) : option A := if i <? 0 then None else zget l i.
 
 Definition produces_at (t : tx A) (i : Z) : option A :=
   if is_valid t then get (outputs t) i
